@@ -93,7 +93,7 @@ inductive Effect (net : Net) (s : NState) (t : Nat) (ts : TSt) : Instr → NStat
       (hk1 : ∀ m, i = .killIfExc m → ts.exc = none)
       (hk2 : ∀ m, i = .killIfOwn m → ∀ r, ts.exc ≠ some (true, r))
       (hj : ∀ u, i = .join u → ∀ tu, s.thr[u]? = some tu → tu.prog = [])
-      (hn : (∀ e, i ≠ .fail e ∧ i ≠ .die e) ∧ (∀ sv, i ≠ .finish sv) ∧ i ≠ .dropEpi) :
+      (hn : (∀ e, i ≠ .fail e ∧ i ≠ .die e) ∧ (∀ sv, i ≠ .finish sv) ∧ i ≠ .dropEpi ∧ ∀ l, i ≠ .setEpi l) :
       Effect net s t ts i (s.setThr t ts.advance)
   | readPop (m k : Nat) (a : AMB) (sb : ASub) : s.mbs[m]? = some a → a.subs[k]? = some sb → 0 < sb.buffered →
       Effect net s t ts (.read m k)
@@ -139,6 +139,7 @@ inductive Effect (net : Net) (s : NState) (t : Nat) (ts : TSt) : Instr → NStat
           | none => .returned) →
       Effect net s t ts (.finish sv) ({ s with outcome := some out }.setThr t ts.advance)
   | dropEpi : Effect net s t ts .dropEpi (s.setThr t { ts.advance with epi := [] })
+  | setEpi (ms : List Nat) : Effect net s t ts (.setEpi ms) (s.setThr t { ts.advance with epi := ms.map Instr.killIfExc })
 
 theorem step_cases {net : Net} {s s' : NState} {t : Nat} (h : step net s t = some s') :
     ∃ ts i rest, s.thr[t]? = some ts ∧ ts.prog = i :: rest ∧ Effect net s t ts i s' := by
@@ -292,5 +293,6 @@ theorem step_cases {net : Net} {s s' : NState} {t : Nat} (h : step net s t = som
           rw [hnone] at htu'; cases htu'
       | finish sv => simp only [Option.some.injEq] at h; subst h; exact .finish sv _ rfl
       | dropEpi => simp only [Option.some.injEq] at h; subst h; exact .dropEpi
+      | setEpi l => simp only [Option.some.injEq] at h; subst h; exact .setEpi l
 
 end Strax.Net
